@@ -169,14 +169,28 @@ func ToGNMITypedValue(v *sdcpb.TypedValue) *gnmi.TypedValue {
 		return &gnmi.TypedValue{
 			Value: &gnmi.TypedValue_BytesVal{BytesVal: v.GetBytesVal()},
 		}
-	// case *sdcpb.TypedValue_DecimalVal:
-	// 	return &gnmi.TypedValue{
-	// 		Value: &gnmi.TypedValue_DecimalVal{DecimalVal: v.GetDecimalVal()},
-	// 	}
-	// case *sdcpb.TypedValue_FloatVal:
-	// 	return &gnmi.TypedValue{
-	// 		Value: &gnmi.TypedValue_FloatVal{FloatVal: v.GetFloatVal()},
-	// 	}
+	case *sdcpb.TypedValue_DecimalVal:
+		// gNMI carries decimal64 as a double (decimal_val is deprecated)
+		f, err := strconv.ParseFloat(TypedValueToString(v), 64)
+		if err != nil {
+			return nil
+		}
+		return &gnmi.TypedValue{
+			Value: &gnmi.TypedValue_DoubleVal{DoubleVal: f},
+		}
+	case *sdcpb.TypedValue_DoubleVal:
+		return &gnmi.TypedValue{
+			Value: &gnmi.TypedValue_DoubleVal{DoubleVal: v.GetDoubleVal()},
+		}
+	case *sdcpb.TypedValue_FloatVal:
+		return &gnmi.TypedValue{
+			Value: &gnmi.TypedValue_DoubleVal{DoubleVal: float64(v.GetFloatVal())},
+		}
+	case *sdcpb.TypedValue_EmptyVal:
+		// a leaf of type empty (or a presence container) that exists is "true"
+		return &gnmi.TypedValue{
+			Value: &gnmi.TypedValue_BoolVal{BoolVal: true},
+		}
 	case *sdcpb.TypedValue_IntVal:
 		return &gnmi.TypedValue{
 			Value: &gnmi.TypedValue_IntVal{IntVal: v.GetIntVal()},
